@@ -39,8 +39,10 @@ func init() {
 			}
 			// two-call histories from the empty cache: storing call, clock advance, any call (symbolic selector)
 			for _, first := range []int{0, 1, 6, 7, 9, 10} {
-				is = append(is, eng.Instance{Name: fmt.Sprintf("C01/Cache/hist2/%s;*", cacheOps[first]), Pkg: "cache", Func: "VxH_C01_hist2", Args: []int64{int64(first)},
-					Cfg: eng.Config{DefaultUnwind: 6, NoResizeCall: map[int]bool{0: true, 1: true}}})
+				for second := range cacheOps {
+					is = append(is, eng.Instance{Name: fmt.Sprintf("C01/Cache/hist2/%s;%s", cacheOps[first], cacheOps[second]), Pkg: "cache", Func: "VxH_C01_hist2",
+						Args: []int64{int64(first), int64(second)}, Cfg: eng.Config{DefaultUnwind: 6, NoResizeCall: map[int]bool{0: true, 1: true}}})
+				}
 			}
 			return withOf(is)
 		},
@@ -167,9 +169,13 @@ func init() {
 				{Name: "C07/Cache/Items", Pkg: "cache", Func: "VxH_C07_cacheRange", Args: []int64{1}, Cfg: eng.Config{DefaultUnwind: 6}},
 				{Name: "C07/Cache/RangeNil", Pkg: "cache", Func: "VxH_C07_cacheRange", Args: []int64{2}, Cfg: eng.Config{DefaultUnwind: 6}},
 			}
+			is = append(is, eng.Instance{Name: "C07/Cache/Items||Set", Pkg: "cache", Func: "VxH_C07_itemsPar", Cfg: eng.Config{DefaultUnwind: 4, Rounds: 2}})
 			is = withOf(is)
 			is = append(is, mapStepInstances("C07/Map/Range", "VxH_Map_step", []shape{{1, 1, 1, 0}, {2, 1, 1, 1}, {1, 2, 1, 1}}, []int{9})...)
-			is = append(is, mapOfStepInstances("C07/MapOf[int,int]/Range", "VxH_MapOfII_step", [][5]int{{1, 1, 1, 3, 0}}, []int{9})...)
+			// MapOf: 3 symbolic slots; a chain of three buckets with one symbolic slot each (empty middle bucket included)
+			is = append(is, mapOfStepInstances("C07/MapOf[int,int]/Range", "VxH_MapOfII_step", [][5]int{{1, 1, 1, 3, 0}, {1, 3, 1, 1, 0}}, []int{9})...)
+			// traversal concurrent with one writer (symbolic schedule)
+			is = append(is, c07par()...)
 			return is
 		},
 		Thorough: func() []eng.Instance {
@@ -307,6 +313,8 @@ func c11Instances(thorough bool) []eng.Instance {
 	// MapOf[int,int]: 3 symbolic slots; concretely full bucket (grow 1->2); full root bucket below the threshold (append-bucket path)
 	is = append(is, mapOfStepInstances("C11/MapOf[int,int]/step", "VxH_MapOfII_step", [][5]int{{1, 1, 1, 3, 0}}, all)...)
 	is = append(is, mapOfStepInstances("C11/MapOf[int,int]/step", "VxH_MapOfII_step", [][5]int{{2, 1, 2, -5, 1}}, []int{1, 2, 5})...)
+	// two-bucket chain with holes: an insert into a hole of the non-tail bucket, deletes in the overflow bucket
+	is = append(is, mapOfStepInstances("C11/MapOf[int,int]/step", "VxH_MapOfII_step", [][5]int{{1, 2, 1, 2, 0}}, []int{1, 5, 7})...)
 	is = append(is, mapOfStepInstances("C11/MapOf[string,any]/step", "VxH_MapOfSA_step", [][5]int{{1, 1, 1, 2, 0}}, []int{0, 1, 5, 6})...)
 	if thorough {
 		is = append(is, mapStepInstances("C11/Map/step", "VxH_Map_step", []shape{{2, 1, 2, 1}, {1, 2, 1, 1}}, []int{0, 2, 3, 4, 8, 9, 10})...)
@@ -348,7 +356,12 @@ func mapPar2(prefix, fn string, pairs [][2]int, extra []int64, rounds int) []eng
 	var is []eng.Instance
 	for _, p := range pairs {
 		args := append([]int64{int64(p[0]), int64(p[1])}, extra...)
-		is = append(is, eng.Instance{Name: fmt.Sprintf("%s/%s||%s", prefix, mapOps[p[0]], mapOps[p[1]]), Pkg: "xsync", Func: fn, Args: args, Cfg: parCfg(rounds)})
+		cfg := parCfg(rounds)
+		if p[0] == 8 || p[1] == 8 {
+			// pairs with Clear: a delete that empties its bucket may request a shrink (early return)
+			cfg = parCfgShrinkReq(rounds)
+		}
+		is = append(is, eng.Instance{Name: fmt.Sprintf("%s/%s||%s", prefix, mapOps[p[0]], mapOps[p[1]]), Pkg: "xsync", Func: fn, Args: args, Cfg: cfg})
 	}
 	return is
 }
@@ -441,6 +454,22 @@ func init() {
 				{"DeleteExpired", "Set"}, {"DeleteExpired", "GetAndSet"}, {"DeleteExpired", "GetOrSet"}, {"Get", "Set"}, {"Get", "GetAndSet"},
 				{"GetAndRefresh", "Delete"}, {"GetAndRefresh", "Set"}, {"Set", "Set"}, {"GetOrSet", "Delete"}, {"Compute", "GetAndDelete"},
 			}, 0))
+		},
+		Thorough: func() []eng.Instance {
+			ops := []string{"Set", "Get", "GetOrSet", "GetAndSet", "GetAndRefresh", "GetOrCompute", "Compute", "GetAndDelete", "Delete", "DeleteExpired", "Clear"}
+			var r3, r2 [][2]string
+			for i, a := range ops {
+				for _, b := range ops[i:] {
+					if a == "DeleteExpired" || b == "DeleteExpired" {
+						r2 = append(r2, [2]string{a, b})
+					} else {
+						r3 = append(r3, [2]string{a, b})
+					}
+				}
+			}
+			is := withOf(cachePar2R("C02/Cache/par2", r3, 0, 3))
+			is = append(is, withOf(cachePar2R("C02/Cache/par2", r2, 0, 2))...)
+			return is
 		},
 	})
 	register(&PropSpec{
@@ -543,6 +572,9 @@ func init() {
 			is = append(is, mapStepInstances("C08/Map/step", "VxH_Map_step", []shape{{1, 1, 1, 0}}, []int{1, 5, 7, 8, 10})...)
 			is = append(is, mapOfStepInstances("C08/MapOf[int,int]/step", "VxH_MapOfII_step", [][5]int{{1, 1, 1, 3, 0}}, []int{1, 5, 7, 8, 10})...)
 			is = append(is, mapPar2("C08/Map/par2", "VxH_Map_par2", [][2]int{{1, 7}, {6, 1}}, []int64{1, 1, 1, 11}, 2)...)
+			// a delete / insert whose counter update races with a Clear (fresh table)
+			is = append(is, mapPar2("C08/Map/par2+Clear", "VxH_Map_par2", [][2]int{{8, 7}, {8, 1}}, []int64{1, 1, 1, 1}, 2)...)
+			is = append(is, mapPar2("C08/MapOf/par2+Clear", "VxH_MapOf_par2", [][2]int{{8, 7}}, []int64{1, 1, 1, 1, 2}, 2)...)
 			is = append(is, mapPar2("C08/MapOf/par2", "VxH_MapOf_par2", [][2]int{{1, 7}}, []int64{1, 1, 1, 11, 2}, 2)...)
 			return is
 		},
@@ -550,9 +582,9 @@ func init() {
 	register(&PropSpec{
 		ID:        "C10",
 		Technique: "bounded symbolic execution of MapOf[K,int] steps for key types of several comparable kinds under an uninterpreted hasher that respects == (any collision pattern incl. total): two keys address the same entry iff Go == says so",
-		Bounds:    map[string]interface{}{"key_types": "struct{int8;int64} (padding), nested struct with string/array fields, bool, int8, *int (incl. nil), string", "table": "1 root bucket, 2-3 symbolic slots"},
+		Bounds:    map[string]interface{}{"key_types": "struct{int8;int64} (padding), nested struct with string/array fields, bool, int8, *int (incl. nil), string; default hasher: int, string, float64 (+0,-0,1.5), padded struct, *int, any holding nil/int/string/*int/struct", "table": "1 root bucket, 2-3 symbolic slots", "default_hasher_history": "Store,Store,(pointee change),Load,Size,Delete,Load"},
 		Stubs:     commonStubs,
-		Outside:   []string{"the default hasher built on runtime.typehash (its body is not encoded; known weakness for interface-typed K is described in DESIGN.md and not claimed)", "float keys", "interface-typed keys"},
+		Outside:   []string{"what runtime.typehash itself computes (modelled by its contract: p must address a value of type t; equal values hash equally)", "key types outside the catalogue", "NaN keys"},
 		Quick: func() []eng.Instance {
 			var is []eng.Instance
 			kinds := []string{"struct{int8;int64}", "nested-struct", "bool", "int8", "*int", "string"}
@@ -564,6 +596,7 @@ func init() {
 				}
 			}
 			is = append(is, eng.Instance{Name: "C10/MapOf[*int]/pointee-change", Pkg: "xsync", Func: "VxH_C10_pointee", Cfg: eng.Config{DefaultUnwind: 8}})
+			is = append(is, c10default()...)
 			return is
 		},
 		Thorough: func() []eng.Instance {
@@ -576,6 +609,7 @@ func init() {
 				}
 			}
 			is = append(is, eng.Instance{Name: "C10/MapOf[*int]/pointee-change", Pkg: "xsync", Func: "VxH_C10_pointee", Cfg: eng.Config{DefaultUnwind: 8}})
+			is = append(is, c10default()...)
 			return is
 		},
 	})
@@ -595,7 +629,7 @@ func init() {
 		Outside:   []string{"more than 2 goroutines", "races that need more than 3 context switches to reach", "resizes concurrent with the calls", "the janitor goroutine (its body is DeleteExpired, covered as a caller)"},
 		Quick: func() []eng.Instance {
 			var is []eng.Instance
-			for _, p := range [][2]int{{0, 1}, {0, 7}, {0, 5}, {1, 7}, {10, 1}} {
+			for _, p := range [][2]int{{0, 1}, {0, 7}, {0, 5}, {1, 7}, {10, 1}, {9, 1}, {9, 7}} {
 				is = append(is, eng.Instance{Name: fmt.Sprintf("C14/Map/race/%s||%s", mapOps[p[0]], mapOps[p[1]]), Pkg: "xsync", Func: "VxH_Map_race",
 					Args: []int64{int64(p[0]), int64(p[1]), 1, 1, 1, 1}, Cfg: raceCfg()})
 				is = append(is, eng.Instance{Name: fmt.Sprintf("C14/MapOf/race/%s||%s", mapOps[p[0]], mapOps[p[1]]), Pkg: "xsync", Func: "VxH_MapOf_race",
@@ -613,6 +647,49 @@ func init() {
 			}
 			is = append(is, withOf(cs)...)
 			return is
+		},
+	})
+}
+
+func c07par() []eng.Instance {
+	var is []eng.Instance
+	for _, op := range []int{1, 7, 5, 3} {
+		is = append(is, eng.Instance{Name: fmt.Sprintf("C07/Map/Range||%s", mapOps[op]), Pkg: "xsync", Func: "VxH_Map_rangePar",
+			Args: []int64{int64(op), 1, 1, 1, 2}, Cfg: eng.Config{DefaultUnwind: 4, Rounds: 2, NoResizeCall: map[int]bool{0: true, 1: true}}})
+	}
+	return is
+}
+
+
+// c10default: the real body of defaultHasher[K] with runtime.typehash modelled by its contract.
+func c10default() []eng.Instance {
+	var is []eng.Instance
+	for k, kn := range []string{"int", "string", "float64(+0,-0,1.5)", "struct{int8;int64}", "*int", "any(nil,int,string,*int,struct)"} {
+		is = append(is, eng.Instance{Name: fmt.Sprintf("C10/default-hasher/MapOf[%s]/history", kn), Pkg: "xsync", Func: "VxH_C10_default", Args: []int64{int64(k)},
+			Cfg: eng.Config{DefaultUnwind: 6, RealHasher: true, NoResizeCall: map[int]bool{0: true, 1: true}}})
+	}
+	return is
+}
+
+
+func init() {
+	register(&PropSpec{
+		ID:        "C15",
+		Level:     "other",
+		Technique: "bounded symbolic execution of the real constructors and of the janitor goroutine's body run as a call (select = free choice among enabled cases), plus reachability over the symbolic heap",
+		Explain: "Restricted claim. Decided by the solver on the real code: (1) a janitor goroutine is started iff the normalised cleanup interval is > 0, for New+options, NewDefault and New() and all int64 interval values, and its ticker is created with exactly that interval; " +
+			"(2) the goroutine body executed for one tick removes the expired entry, keeps the live one and fires the evicted callback - with no user call; (3) a finalizer is registered on the object handed to the user, that object is not reachable from anything the goroutine holds " +
+			"(closure bindings, followed through every pointer of the symbolic heap), and running the finalizer closes the channel the goroutine selects on. NOT decided (behaviour of the Go runtime, outside any encoding of this code): that ticks arrive within a bounded number of intervals of real time, " +
+			"that the garbage collector runs the finalizer once the object is unreachable, goroutine counts after GC. Native replays use the model's values for the structural facts (spawn count, reachability, finalizer, closed channel), so for this property the replay confirms only the functional part (what one janitor pass removes and reports).",
+		Bounds:  map[string]interface{}{"constructors": "New+options, NewDefault, New()", "interval": "all int64 values", "janitor_iterations": 1, "entries": 2},
+		Stubs:   commonStubs,
+		Outside: []string{"timer delivery and garbage collection (Go runtime)", "more than one janitor pass"},
+		Quick: func() []eng.Instance {
+			var is []eng.Instance
+			for v, n := range []string{"New+opts", "NewDefault", "New()"} {
+				is = append(is, eng.Instance{Name: "C15/Cache/janitor/" + n, Pkg: "cache", Func: "VxH_C15_janitor", Args: []int64{int64(v)}, Cfg: eng.Config{DefaultUnwind: 9}})
+			}
+			return withOf(is)
 		},
 	})
 }
